@@ -320,6 +320,9 @@ TRANSPARENT = {
 def is_transparent(name):
     if name in TRANSPARENT:
         return True
+    # the lossless integer widenings `impl From<u16> for usize` etc. (core::convert::num)
+    if name == "std::convert::num::from" or name == "core::convert::num::from":
+        return True
     # resolved impls of the same traits: `<X as std::ops::Deref>::deref`
     for t in ("std::ops::Deref>::deref", "std::ops::DerefMut>::deref_mut", "std::convert::AsRef>::as_ref",
               "std::convert::Into>::into", "std::convert::From>::from", "std::borrow::Borrow>::borrow",
